@@ -57,7 +57,21 @@ structure FieldsRes where
 
 def boolToInt (b : Bool) : BitVec 64 := if b then 1#64 else 0#64
 def boolToFlt (b : Bool) : Dy := if b then ⟨1, 0⟩ else ⟨0, 0⟩
-def intToFlt (i : BitVec 64) : Dy := Dy.ofInt i.toInt
+/-- IEEE-754 round-to-nearest-even of a natural number to 53 significant bits (`float64(int64)`). -/
+def roundTo53 (n : Nat) : Nat :=
+  let bits := Nat.log2 n + 1
+  if bits ≤ 53 then n
+  else
+    let shift := bits - 53
+    let q := n >>> shift
+    let r := n % 2 ^ shift
+    let half := 2 ^ (shift - 1)
+    let q' := if r > half ∨ (r = half ∧ q % 2 = 1) then q + 1 else q
+    q' <<< shift
+
+def intToFlt (i : BitVec 64) : Dy :=
+  let n := i.toInt
+  Dy.ofInt (if n < 0 then -(roundTo53 n.natAbs : Int) else (roundTo53 n.natAbs : Int))
 def fltToInt (d : Dy) : BitVec 64 := BitVec.ofInt 64 d.trunc
 
 mutual
